@@ -164,7 +164,7 @@ Proof. exact builtin_index_injective. Qed.
 (* characters missing from the mapping render the replacement glyph, which is the glyph of '?' *)
 Theorem C14_builtin_unmapped_is_question_mark : forall b c,
   In b fonts -> ~ In c (builtin_chars b) -> builtin_index b c = builtin_index b 63 /\ In 63 (builtin_chars b).
-Proof. intros b c H Hn. split; [apply builtin_index_unmapped; assumption|apply builtin_question_mark_mapped; assumption]. Qed.
+Proof. exact builtin_unmapped_is_question_mark. Qed.
 
 (* the translator's own walk over each mapping string agrees with the model of StrGlyphMapping::chars *)
 Theorem C14_builtin_expansion_agrees : forall m, In m mappings -> bm_chars m = expand_chars (bm_raw m).
